@@ -526,7 +526,10 @@ void carquet_simd_dispatch_init(void) {
 #endif
 
 #ifdef CARQUET_ENABLE_AVX512
-    if (cpu->has_avx512f) {
+    /* The AVX-512 kernels are built with AVX512F+BW+VL and use byte/word and
+     * 128/256-bit forms: all three must be present (Knights Landing and
+     * masked virtual CPUs report F alone). */
+    if (cpu->has_avx512f && cpu->has_avx512bw && cpu->has_avx512vl) {
         g_dispatch.prefix_sum_i32 = carquet_avx512_prefix_sum_i32;
         g_dispatch.prefix_sum_i64 = carquet_avx512_prefix_sum_i64;
         g_dispatch.gather_i32 = carquet_avx512_gather_i32;
